@@ -243,6 +243,22 @@ extern "C" void h_many_names(void) {
    for (int k = 0; k < 2; ++k) { unsigned n = vp_pick(Names::NN), t = vp_pick(2); step(n, t); oracle(); }
    vp_done();
 }
+// a declaration that is refused leaves the scope as it was: an alias whose initializer has no type yet cannot be declared (logic_error);
+// afterwards the name is still undeclared (no overload set, no member), and declaring it properly works as on a fresh scope
+extern "C" void h_refused_declaration(void) {
+   World* w = new World; auto& lx = w->lx;
+   const ipr::Scope& scope = w->ns->body.scope; auto& sc = w->ns->body.scope;
+   unsigned before = vp_pick(2);                                     // the scope is empty, or already holds another name
+   if (before) sc.make_var(*w->N[1], *w->TY[1][1]);
+   const ipr::Expr& untyped = *lx.make_id_expr(lx.get_identifier(u8"nowhere"));
+   int out = vp_outcome([&] { sc.make_alias(*w->N[0], untyped); });
+   vp_assert(out == 1, 70);                                          // refused with a logic_error
+   vp_assert(!scope[*w->N[0]].is_valid() && scope.size() == before && scope.elements().size() == before, 71);
+   const ipr::Decl* d = sc.make_alias(*w->N[0], *w->init[0][2]);
+   auto ovl = scope[*w->N[0]];
+   vp_assert(ovl.is_valid() && ovl.get()[d->type()].is_valid() && &ovl.get()[d->type()].get() == d && &d->master() == d && scope.size() == before + 1, 72);
+   vp_done();
+}
 // parameter lists, enumerations, base lists, handler regions: singleton sets, positions equal to index
 extern "C" void h_homogeneous(void) {
    World* w = new World; auto& lx = w->lx;
